@@ -140,7 +140,7 @@ CLAIMED = {
    text="PARTIAL bounded symbolic check: the real fit_spline_1d (sparse assembly + Eigen::SparseLU for PiecewiseLinear / FixedDerCubic<1|2>, SparseLU on the full KKT system for "
         "MinDerivative<5,3,3> and <6,3,3>) is executed symbolically with symbolic increments dx_i and sampling intervals dt_i that are symbolic in [1e-2,1e2] (any ratio) for the interpolating specs and fixed to stated rationals for MinDerivative (the KKT factorisation with symbolic dt swells past 60 GB); every pivot decision is a path; z3 decides "
         "on each path that the returned Bernstein coefficients satisfy every interpolation, derivative-continuity and boundary equation written from the specification, and for MinDerivative that every coefficient is within 1e-4 |dx| of the exact rational minimiser of the documented cost.",
-   note=TB + "; N<=3 segments (interpolating specs); MinDerivative: N=1 with dt in {1, 1/2, 3} quick, N=2 with dt in {(1,1),(1/2,2),(3,1/3)} thorough; a SUPPLEMENTARY native scan (250 fits, sampling 1e-2..1e2, the property's interval ratios) evaluates every constraint in backward-error form at 1e-6 and found the KKT defect repaired in 01db3e5; NOT encoded: fit_spline on groups, fit_bspline, dubins_curve, reparameterize_spline; floating-point "
+   note=TB + "; N<=3 segments for PiecewiseLinear, N<=2 for FixedDerCubic (N=3 with symbolic dt is attempted in thorough and runs out of its 30 min job budget: listed undecided); MinDerivative: N=1 with dt in {1, 1/2, 3} quick, N=2 with dt in {(1,1),(1/2,2),(3,1/3)} thorough; a SUPPLEMENTARY native scan (250 fits, sampling 1e-2..1e2, the property's interval ratios) evaluates every constraint in backward-error form at 1e-6 and found the KKT defect repaired in 01db3e5; NOT encoded: fit_spline on groups, fit_bspline, dubins_curve, reparameterize_spline; floating-point "
         "conditioning is visible to the native scan only, not to the exact-arithmetic layer.",
    ref="DESIGN 13.6", technique="symbolic execution of LLVM IR (sparse LU/LDLT, every pivot order a path) + SMT"),
 }
